@@ -91,6 +91,13 @@ def deep_eq(e, a, b):
     if isinstance(a, Adt) and isinstance(b, Adt):
         if a.ty != b.ty or a.variant != b.variant or len(a.fields) != len(b.fields):
             return False
+        if a.ty == 'Loc' and a.variant == 'File':
+            # ASSUMPTION (stated in every evidence file that uses symbolic trees): two different nodes of a parse tree
+            # never have the same (start, end) extent, a node has the same extent as itself. Loc symbols are named after
+            # the node, so equality of symbolic Locs is decided by name.
+            na, nb = _loc_name(a), _loc_name(b)
+            if na is not None and nb is not None:
+                return conj(e, [na == nb, deep_eq(e, a.fields[0], b.fields[0])])
         return conj(e, [deep_eq(e, x, y) for x, y in zip(a.fields, b.fields)])
     if isinstance(a, Tuple) and isinstance(b, Tuple):
         return conj(e, [deep_eq(e, x, y) for x, y in zip(a.fields, b.fields)])
@@ -105,6 +112,16 @@ def deep_eq(e, a, b):
             return True
         raise Unsupported('equality of distinct opaque values')
     raise Unsupported('equality of %r and %r' % (a, b))
+
+
+def _loc_name(l):
+    s_, e_ = l.fields[1], l.fields[2]
+    if isinstance(s_, Int) and isinstance(e_, Int) and not s_.concrete and not e_.concrete and \
+            z3.is_const(s_.v) and z3.is_const(e_.v):
+        a, b = s_.v.decl().name(), e_.v.decl().name()
+        if a.endswith('.s') and b.endswith('.e') and a[:-2] == b[:-2]:
+            return a[:-2]
+    return None
 
 
 def conj(e, parts):
@@ -670,6 +687,14 @@ def string_add(e, args, fr, m):
     return concat(e.load(args[0]), e.load(args[1]))
 
 
+@contract(r'^String::is_empty$|^<impl str>::is_empty$')
+def string_is_empty(e, args, fr, m):
+    s = e.load(args[0])
+    if s.concrete:
+        return s.v == ''
+    return z3.simplify(z3.Length(s.z()) == 0)
+
+
 @contract(r'^String::len$|^<impl str>::len$')
 def string_len(e, args, fr, m):
     s = e.load(args[0])
@@ -745,7 +770,7 @@ def int_to_string(e, args, fr, m):
     return s
 
 
-@contract(r'^<impl str>::parse::<(i32|u32|u8|u16|usize|u64|i64)>$')
+@contract(r'^<impl str>::parse::<(i32|u32|u8|u16|usize|u64|i64|u128|i128)>$')
 def str_parse_int(e, args, fr, m):
     s = e.load(args[0])
     ty = m.group(1)
